@@ -88,6 +88,11 @@ func c09Norm(n ast.IsNode, textMode bool) ast.IsNode {
 	case ast.NodeTypeHas:
 		return ast.NodeTypeHas{StrOpNode: ast.StrOpNode{Arg: s(v.Arg), Value: v.Value}}
 	case ast.NodeTypeLike:
+		// identification: the pattern without components (types.NewPattern(), the zero Pattern) is written — as JSON
+		// and as text — as the single empty literal, which matches the same strings (Lean: normPattern [] )
+		if len(types.VerifPatternComps(v.Value)) == 0 {
+			return ast.NodeTypeLike{Arg: s(v.Arg), Value: types.NewPattern(types.String(""))}
+		}
 		return ast.NodeTypeLike{Arg: s(v.Arg), Value: v.Value}
 	case ast.NodeTypeIs:
 		return ast.NodeTypeIs{Left: s(v.Left), EntityType: v.EntityType}
@@ -357,7 +362,7 @@ type c09Traits struct {
 	unknownExt     bool   // call of a name that is not an extension function: outside the JSON format
 	emptyPattern   bool   // `like` with a zero-component pattern
 	literalClass   string // a literal VALUE that does not survive value JSON (C13 known findings)
-	methodNoRecv   bool   // C10: method-style extension call without a receiver (MarshalCedar panics)
+	methodNoRecv   bool   // method-style extension call without a receiver: programmatic only, outside the JSON format
 	exoticValueKey bool   // C08: record VALUE key that strconv.Quote renders with Go-only escapes
 	textFriendly   bool   // every entity type / annotation key is a Cedar identifier path, no zero UID
 	hasSetValue    bool
@@ -545,7 +550,7 @@ var c09NodeVals = []any{nil, []any{}, []any{map[string]any{"Value": json.Number(
 func runC09(c *vh.Ctx) {
 	g := vh.NewGen(c.Rng)
 	b := &vh.Batch{}
-	c.Res.Rule = "random policies over all node kinds (every operator, extension calls and extension-typed literal values, is / is..in, like patterns with wildcards and escapes, set and record literals and literal set / record values, every scope form, annotations, Unicode strings): MarshalJSON -> UnmarshalJSON -> AST equal to the original modulo the documented identifications (annotations and record entries by key; decimal / ip literal = constructor call), through cedar.Policy and through ast.Policy; PolicySet JSON round trip preserves ids and policies; text -> JSON -> text and JSON -> text -> JSON equal the single-format results; every encoding authorizes identically on 6+ environments; Lean model toJ / fromJ (JSON-tree level) agrees with the Go codec on the generated documents (canonical tree of the encoding; decoded policy) and on near-miss documents (accept / reject / decoded policy; a Go panic is the C10 finding). distinct = distinct policies / documents; non-trivial = policy with at least one condition"
+	c.Res.Rule = "random policies over all node kinds (every operator, extension calls and extension-typed literal values, is / is..in, like patterns with wildcards and escapes, set and record literals and literal set / record values, every scope form, annotations, Unicode strings): MarshalJSON -> UnmarshalJSON -> AST equal to the original modulo the documented identifications (annotations and record entries by key; decimal / ip literal = constructor call; zero-component pattern = the empty literal), through cedar.Policy and through ast.Policy; PolicySet JSON round trip preserves ids and policies; text -> JSON -> text and JSON -> text -> JSON equal the single-format results; every encoding authorizes identically on 6+ environments; Lean model toJ / fromJ (JSON-tree level) agrees with the Go codec on the generated documents (canonical tree of the encoding; decoded policy) and on near-miss documents (accept / reject / decoded policy; a Go panic is the C10 finding). distinct = distinct policies / documents; non-trivial = policy with at least one condition"
 
 	pool := g.EnvPool(c.N(40, 400))
 	mut := &vh.TreeMutator{G: g, Keys: c09NodeKeys, Values: c09NodeVals}
@@ -580,8 +585,10 @@ func runC09(c *vh.Ctx) {
 		{"C09_unknown_key_is_extension/2", condDoc(map[string]any{"decimal": []any{}, "ip": []any{}}), "err"},
 		{"C09_unknown_key_is_extension/3", condDoc(map[string]any{"nosuchfn": []any{}}), "err"},
 		{"C09_known_field_beats_extension", condDoc(map[string]any{"Set": []any{}, "decimal": one}), "ok"},
-		{"C09_decoder_panic_counterexample", condDoc(map[string]any{"Record": map[string]any{"a": nil}}), "panic"},
-		{"C09_like_empty_pattern_counterexample", condDoc(map[string]any{"like": map[string]any{"left": map[string]any{"Value": "a"}, "pattern": []any{}}}), "err"},
+		{"C09 regression example: null record entry (was C09_decoder_panic_counterexample)", condDoc(map[string]any{"Record": map[string]any{"a": nil}}), "err"},
+		{"C09 regression example: method without receiver", condDoc(map[string]any{"lessThan": []any{}}), "err"},
+		{"C09 example: the decoder refuses \"pattern\":[]", condDoc(map[string]any{"like": map[string]any{"left": map[string]any{"Value": "a"}, "pattern": []any{}}}), "err"},
+		{"C09_like_empty_pattern_roundtrip", condDoc(map[string]any{"like": map[string]any{"left": map[string]any{"Value": "a"}, "pattern": []any{map[string]any{"Literal": ""}}}}), "ok"},
 		{"C09_unknown_function_counterexample", condDoc(map[string]any{"nosuchfn": []any{map[string]any{"Value": json.Number("1")}}}), "err"},
 	} {
 		c.Res.OracleChecks++
@@ -623,6 +630,16 @@ func runC09(c *vh.Ctx) {
 			c.Dist("not-json-renderable:unknown-extension-name")
 			if out != "err" {
 				c.Report(vh.Finding{Class: "unknown-extension-accepted", What: "a call of an unknown function survived the JSON decoder: " + string(jb), Check: "oracle", Op: "json-roundtrip", Input: vh.EncPolicy(p), Actual: out})
+			}
+			continue
+		case tr.methodNoRecv:
+			// outside the JSON format (the receiver is the first argument): the decoder must refuse it
+			c.Dist("not-json-renderable:method-without-receiver")
+			if out != "err" {
+				c.Report(vh.Finding{Class: "method-without-receiver-accepted", What: "a method-style call without receiver survived the JSON decoder: " + string(jb), Check: "oracle", Op: "json-roundtrip", Input: vh.EncPolicy(p), Actual: out})
+			}
+			if _, terr := c09MarshalText(p); terr != nil { // rendered in function style; must not panic
+				c.Report(vh.Finding{Class: "json-text-marshal-panics", What: terr.Error(), Check: "oracle", Op: "cedar-encode", Input: vh.EncPolicy(p)})
 			}
 			continue
 		case out == "err" || out == "panic":
@@ -690,8 +707,6 @@ func runC09(c *vh.Ctx) {
 		switch {
 		case !tr.textFriendly:
 			c.Dist("text-paths:skipped-not-text-representable")
-		case terr2 != nil && tr.methodNoRecv:
-			c.Dist("text-paths:c10-overlap")
 		case terr2 != nil:
 			c.Report(vh.Finding{Class: "json-text-marshal-panics", What: terr2.Error(), Check: "oracle", Op: "json-text-json", Input: vh.EncPolicy(p)})
 		default:
@@ -775,7 +790,7 @@ func runC09(c *vh.Ctx) {
 			}
 			p := g.PolicyC09(1 + c.Rng.Intn(3))
 			tr := c09TraitsOf(p)
-			if tr.unknownExt || tr.literalClass != "" || tr.emptyPattern {
+			if tr.unknownExt || tr.methodNoRecv || tr.literalClass != "" {
 				skip = true
 			}
 			dup := false
